@@ -237,7 +237,18 @@ mod ho {
 
 // ------------------------------------------------------------------ 2. histories (fresh process each)
 
-pub const LETTERS: &[&str] = &["compile-ok", "compile-ok-other-dialect", "compile-lex-error", "compile-resolve-error", "compile-sql-error", "compile-panicking-input", "log-start", "log-finish", "logged-compile", "version-override-toggle"];
+pub const LETTERS: &[&str] = &[
+    "compile-ok", "compile-ok-other-dialect", "compile-lex-error", "compile-resolve-error", "compile-sql-error", "compile-panicking-input", "log-start", "log-finish", "logged-compile", "version-override-toggle",
+    // the dialect-sensitive program under four dialects whose keyword sets and quoting rules differ
+    "compile-names-redshift", "compile-names-postgres", "compile-names-mssql", "compile-names-bigquery",
+];
+
+/// identifiers that are reserved words in some dialects only, a name needing quotes, dialect-specific operators
+const DIALECT_SENSITIVE: &str = "from logs | select {host, tag, percent, identity, `system`, `user`, `my col`, x = a // b} | filter tag == 'x' | sort {-percent} | take 3";
+
+fn names_probe_dialects() -> Vec<Dialect> {
+    vec![Dialect::Generic, Dialect::Postgres, Dialect::Redshift, Dialect::MsSql, Dialect::BigQuery, Dialect::SQLite, Dialect::MySql, Dialect::Snowflake, Dialect::DuckDb, Dialect::ClickHouse, Dialect::Ansi, Dialect::GlareDb]
+}
 
 fn apply_letter(l: &str) {
     let o = Options::default();
@@ -273,6 +284,15 @@ fn apply_letter(l: &str) {
             let _ = guard(|| prqlc::compile(PROBES[1], &o));
             let _ = guard(prqlc::debug::log_finish);
         }
+        "compile-names-redshift" | "compile-names-postgres" | "compile-names-mssql" | "compile-names-bigquery" => {
+            let d = match l {
+                "compile-names-redshift" => Dialect::Redshift,
+                "compile-names-postgres" => Dialect::Postgres,
+                "compile-names-mssql" => Dialect::MsSql,
+                _ => Dialect::BigQuery,
+            };
+            let _ = guard(|| prqlc::compile(DIALECT_SENSITIVE, &o.clone().with_target(Target::Sql(Some(d)))));
+        }
         "version-override-toggle" => {
             std::env::set_var("PRQL_VERSION_OVERRIDE", "9.9.9");
             let _ = guard(|| prqlc::compile(PROBES[8], &o));
@@ -282,12 +302,27 @@ fn apply_letter(l: &str) {
     }
 }
 
+/// output of probe #k alone (used by `c11w --probe k`: a process that has done nothing else)
+pub fn single_probe(k: usize) -> String {
+    probe_outputs_sel(Some(k)).into_iter().next().unwrap_or_default()
+}
+
 fn probe_outputs() -> Vec<String> {
+    probe_outputs_sel(None)
+}
+
+fn probe_outputs_sel(only: Option<usize>) -> Vec<String> {
     // a small probe set incl. the signature comment (compiler version) and an error
     let o = Options::default().with_display(prqlc::DisplayOptions::Plain);
-    [PROBES[0], PROBES[3], PROBES[8], PROBES[1]]
-        .iter()
-        .map(|p| match guard(|| prqlc::compile(p, &o)) {
+    let mut jobs: Vec<(&str, Options)> = [PROBES[0], PROBES[3], PROBES[8], PROBES[1]].iter().map(|p| (*p, o.clone())).collect();
+    // the dialect-sensitive program under every dialect
+    for d in names_probe_dialects() {
+        jobs.push((DIALECT_SENSITIVE, o.clone().with_target(Target::Sql(Some(d)))));
+    }
+    jobs.iter()
+        .enumerate()
+        .filter(|(k, _)| only.map(|x| x == *k).unwrap_or(true))
+        .map(|(_, (p, od))| match guard(|| prqlc::compile(p, od)) {
             Ok(Ok(s)) => s,
             Ok(Err(e)) => format!("ERR {e}"),
             Err(p) => format!("PANIC at {}: {}", p.site, p.msg),
@@ -296,7 +331,14 @@ fn probe_outputs() -> Vec<String> {
 }
 
 /// `mc c11w <letter>…` : fresh process; prints JSON {initial, after: [...]} of probe outputs
+pub const N_HISTORY_PROBES: usize = 16;
+
 pub fn worker(args: &[String]) -> i32 {
+    if args.first().map(|s| s.as_str()) == Some("--probe") {
+        let k: usize = args.get(1).and_then(|s| s.parse().ok()).unwrap_or(0);
+        println!("{}", json!({"probe": single_probe(k)}));
+        return 0;
+    }
     let initial = probe_outputs();
     let mut after = vec![];
     for l in args {
@@ -446,7 +488,19 @@ pub fn run(tier: Tier) -> i32 {
     }
     // only maximal histories need a process: every prefix is observed on the way
     let exe = std::env::current_exe().expect("exe");
-    let reference = probe_outputs();
+    // reference: every probe in a process of its own (no earlier call of any kind, on any thread)
+    let reference: Vec<String> = par_map(&(0..N_HISTORY_PROBES).collect::<Vec<_>>(), || (), |_, k| {
+        let o = std::process::Command::new(&exe).args(["c11w", "--probe", &k.to_string()]).env_remove("PRQL_VERSION_OVERRIDE").stderr(std::process::Stdio::null()).output();
+        o.ok().and_then(|o| String::from_utf8_lossy(&o.stdout).lines().filter_map(|l| serde_json::from_str::<J>(l).ok()).last()).and_then(|v| v["probe"].as_str().map(|s| s.to_string())).unwrap_or_else(|| "<probe process failed>".into())
+    });
+    if reference.iter().skip(4).all(|r| r.starts_with("ERR") || r.starts_with("PANIC")) {
+        eprintln!("MACHINERY ERROR: the dialect-sensitive probe compiles for no dialect: {}", reference[4].chars().take(300).collect::<String>());
+        return 2;
+    }
+    if reference.len() != probe_outputs().len() {
+        eprintln!("MACHINERY ERROR: N_HISTORY_PROBES does not match the probe list");
+        return 2;
+    }
     let outs = par_map(&frontier, || (), |_, h| {
         let o = std::process::Command::new(&exe).arg("c11w").args(h.iter()).env_remove("PRQL_VERSION_OVERRIDE").stderr(std::process::Stdio::null()).output();
         match o {
@@ -466,7 +520,16 @@ pub fn run(tier: Tier) -> i32 {
         };
         let initial: Vec<String> = v["initial"].as_array().map(|a| a.iter().map(|x| x.as_str().unwrap_or("").to_string()).collect()).unwrap_or_default();
         if initial != reference {
-            run.violate(Some("fresh-process-differs".into()), "probe outputs of a fresh process differ from this process".into(), json!({"driver":"HIS","history": []}));
+            // the probes of one process run one after the other: an output that differs from the one a process
+            // gives when it runs that probe alone depends on the probes before it
+            let k = initial.iter().zip(&reference).position(|(a, b)| a != b).unwrap_or(0);
+            if first_reported.insert(format!("probe-sequence{k}")) {
+                run.violate(
+                    Some(format!("outputs-depend-on-history:probe-sequence-before-probe-{k}")),
+                    format!("probe #{k} run after probes #0..#{k} of the same process gives {:?}, alone in a process {:?}", initial.get(k).map(|s| s.chars().take(160).collect::<String>()), reference.get(k).map(|s| s.chars().take(160).collect::<String>())),
+                    json!({"driver":"HIS","history": ["probes 0.."], "probe": k}),
+                );
+            }
         }
         for (k, after) in v["after"].as_array().cloned().unwrap_or_default().iter().enumerate() {
             run.validated += 1;
